@@ -34,7 +34,8 @@ C_Range(P, o) == /\ Len(o.range) = Cardinality(P)
 C_RangeStop(P, o) == o.stop1 = (IF P = {} THEN 0 ELSE 1)
 C_NoPanic(e) == e.panic = ""
 AllN(P, o) == C_Inverse(o) /\ C_Model(P, o) /\ C_Contains(o) /\ C_Len(P, o) /\ C_Range(P, o) /\ C_RangeStop(P, o)
-All(s, e) == C_NoPanic(e) /\ AllN(s["a"], e.obs.a) /\ AllN(s["b"], e.obs.b)
+\* (q: in large universes the whole API is read back only at chosen points; Len after every call)
+All(s, e) == C_NoPanic(e) /\ IF e.q THEN C_Len(s["a"], e.obs.a) /\ C_Len(s["b"], e.obs.b) ELSE AllN(s["a"], e.obs.a) /\ AllN(s["b"], e.obs.b)
 TInit == bm = [n \in Names |-> {}] /\ l = 1
 Reset == l <= Len(Trace) /\ Ev.op = "Reset" /\ l' = l + 1 /\ bm' = [n \in Names |-> {}] /\ (Gate => All(bm', Ev))
 Step == /\ l <= Len(Trace) /\ Ev.op # "Reset" /\ l' = l + 1
@@ -44,12 +45,12 @@ TSpec == TInit /\ [][Reset \/ Step]_vars
 Obs == Trace[l - 1]
 Chk == ~Gate /\ l > 1
 I_NoPanic == Chk => C_NoPanic(Obs)
-I_Inverse == Chk => C_Inverse(Obs.obs.a) /\ C_Inverse(Obs.obs.b)
-I_Model == Chk => C_Model(bm["a"], Obs.obs.a) /\ C_Model(bm["b"], Obs.obs.b)
-I_Contains == Chk => C_Contains(Obs.obs.a) /\ C_Contains(Obs.obs.b)
+I_Inverse == (Chk /\ ~Obs.q) => C_Inverse(Obs.obs.a) /\ C_Inverse(Obs.obs.b)
+I_Model == (Chk /\ ~Obs.q) => C_Model(bm["a"], Obs.obs.a) /\ C_Model(bm["b"], Obs.obs.b)
+I_Contains == (Chk /\ ~Obs.q) => C_Contains(Obs.obs.a) /\ C_Contains(Obs.obs.b)
 I_Len == Chk => C_Len(bm["a"], Obs.obs.a) /\ C_Len(bm["b"], Obs.obs.b)
-I_Range == Chk => C_Range(bm["a"], Obs.obs.a) /\ C_Range(bm["b"], Obs.obs.b)
-I_RangeStop == Chk => C_RangeStop(bm["a"], Obs.obs.a) /\ C_RangeStop(bm["b"], Obs.obs.b)
+I_Range == (Chk /\ ~Obs.q) => C_Range(bm["a"], Obs.obs.a) /\ C_Range(bm["b"], Obs.obs.b)
+I_RangeStop == (Chk /\ ~Obs.q) => C_RangeStop(bm["a"], Obs.obs.a) /\ C_RangeStop(bm["b"], Obs.obs.b)
 Track == TrackL(l)
 Accepted == AcceptedP
 ====
